@@ -179,7 +179,12 @@ func leanStr(s string) string {
 func main() {
 	repo := flag.String("repo", "/repo", "repository")
 	out := flag.String("out", "", "output directory")
+	locksOnly := flag.Bool("locks-only", false, "only the lock discipline (for trees the fact extraction does not fit)")
 	flag.Parse()
+	if *locksOnly {
+		analyseLocks(*repo, *out)
+		return
+	}
 
 	control := parse(*repo, "controller/control.go")
 	mw := parse(*repo, "controller/multi_writer_at.go")
@@ -695,6 +700,7 @@ func main() {
 	jb, _ := json.MarshalIndent(js, "", " ")
 	os.WriteFile(filepath.Join(*out, "facts.json"), jb, 0644)
 	fmt.Printf("extract: %d translated definitions, %d statement facts\n", len(facts), len(strFacts))
+	analyseLocks(*repo, *out)
 }
 
 func uniq(l []string) []string {
